@@ -39,7 +39,28 @@ pub uninterp spec fn named_unicode(a: ClassUnicode) -> CharSet;
 pub uninterp spec fn spec_is_numeric(c: char) -> bool;
 /// (vstd's own contract of char::is_whitespace: the White_Space code points, written out)
 pub open spec fn spec_is_whitespace(c: char) -> bool { vstd::std_specs::char::is_white_space(c) }
-pub uninterp spec fn spec_perl_word(c: char) -> bool;
+// ---- TRUSTED declaration of the dependency seshat-unicode 0.3.1 (its tables are outside Verus): `props::Gc` (General_Category; the 30 values it declares, in its order) and
+// the two members of `trait Ucd` that the \\w / [:word:] closures call, specified by uninterpreted functions (statements about seshat's tables)
+#[derive(PartialEq, Eq, Clone, Copy, Structural)]
+pub enum Gc { Cc, Cf, Cn, Co, Cs, Ll, Lm, Lo, Lt, Lu, Mc, Me, Mn, Nd, Nl, No, Pc, Pd, Pe, Pf, Pi, Po, Ps, Sc, Sk, Sm, So, Zl, Zp, Zs }
+pub uninterp spec fn spec_gc(c: char) -> Gc;
+pub uninterp spec fn spec_join_c(c: char) -> bool;
+pub trait Ucd: Sized {
+    spec fn ucd_char(&self) -> char;
+    fn gc(&self) -> (r: Gc)
+        ensures r == spec_gc(self.ucd_char());
+    fn join_c(&self) -> (r: bool)
+        ensures r == spec_join_c(self.ucd_char());
+}
+impl Ucd for char {
+    open spec fn ucd_char(&self) -> char { *self }
+    #[verifier::external_body] fn gc(&self) -> Gc { unimplemented!() }
+    #[verifier::external_body] fn join_c(&self) -> bool { unimplemented!() }
+}
+/// the set of \\w and [:word:]: what the code's closure computes (alphanumeric, Join_Control, connector punctuation, nonspacing marks) - its `ensures` is generated from its body
+pub open spec fn spec_perl_word(c: char) -> bool {
+    spec_is_alphanumeric(c) || spec_join_c(c) || spec_gc(c) == Gc::Pc || spec_gc(c) == Gc::Mn
+}
 /// \\d \\s \\w denote the sets of those predicates; \\D \\S \\W their complements
 pub open spec fn perl_base(k: ClassPerlKind, c: char) -> bool {
     match k {
@@ -55,14 +76,27 @@ pub axiom fn axiom_is_numeric_ascii(c: char)
     requires (c as u32) < 128
     ensures spec_is_numeric(c) == ('0' <= c && c <= '9');
 
+/// TRUSTED std fact (std's char::is_alphanumeric = is_alphabetic || is_numeric, both with ASCII fast paths): on ASCII it is [0-9A-Za-z]
+pub axiom fn axiom_is_alphanumeric_ascii(c: char)
+    requires (c as u32) < 128
+    ensures spec_is_alphanumeric(c) == (('0' <= c && c <= '9') || ('A' <= c && c <= 'Z') || ('a' <= c && c <= 'z'));
+/// TRUSTED Unicode facts about seshat's tables on ASCII (UnicodeData.txt / PropList.txt): Join_Control is {U+200C, U+200D}; the only ASCII code point of category Pc is
+/// U+005F LOW LINE; the first Mn is U+0300. (Cross-checked on every C08 run by the `named_leaves` enumeration of the real closures over all 128 ASCII code points.)
+pub axiom fn axiom_seshat_ascii(c: char)
+    requires (c as u32) < 128
+    ensures !spec_join_c(c), (spec_gc(c) == Gc::Pc) == (c == '_'), spec_gc(c) != Gc::Mn;
+
 /// C08: \\d and \\s restricted to ASCII are [0-9] and [\\t\\n\\x0B\\x0C\\r ]; \\D and \\S are their complements (everywhere, by definition of named_perl)
 pub proof fn lemma_perl_ascii(p: ClassPerl, c: char)
     requires (c as u32) < 128
     ensures
         p.kind is Digit ==> named_perl(p)(c) == (('0' <= c && c <= '9') != p.negated),
         p.kind is Space ==> named_perl(p)(c) == ((c == '\t' || c == '\n' || c == '\x0B' || c == '\x0C' || c == '\r' || c == ' ') != p.negated),
+        p.kind is Word ==> named_perl(p)(c) == ((('0' <= c && c <= '9') || ('A' <= c && c <= 'Z') || ('a' <= c && c <= 'z') || c == '_') != p.negated),
 {
     axiom_is_numeric_ascii(c);
+    axiom_is_alphanumeric_ascii(c);
+    axiom_seshat_ascii(c);
 }
 pub proof fn lemma_perl_complement(p: ClassPerl, q: ClassPerl, c: char)
     requires p.kind == q.kind, p.negated != q.negated
